@@ -953,13 +953,16 @@ def run_once(reqs, chooser, lines=None, monitor=True):
 def explore(check, reqs, lines, bound, budget, monitor=True):
     """iterative context bounding: every schedule with at most `bound` preemptions (a
     preemption = switching away from a thread that could have continued), as far as the
-    budget goes; beyond the budget the frontier is sampled with check.rng.  A frontier entry
-    is (decisions of the parent run, index, alternative thread, preemptions used): the prefix
-    is only materialised when the entry is taken."""
-    frontier = [(None, 0, None, 0)]
+    budget goes; beyond the budget the frontier is sampled with check.rng.  Branch points AT a
+    shared access, a lock operation, or the first line event after one (the shared state has
+    just changed, or is just about to) are taken before the other line events.  A frontier
+    entry is (decisions of the parent run, index, alternative thread, preemptions used): the
+    prefix is only materialised when the entry is taken."""
+    hot, cold = [(None, 0, None, 0)], []
     seen = set()
     n = 0
-    while frontier and n < budget:
+    while (hot or cold) and n < budget:
+        frontier = hot if hot else cold
         if len(frontier) > 1 and n > 0:
             j = check.rng.randrange(len(frontier))
             frontier[j], frontier[-1] = frontier[-1], frontier[j]
@@ -975,7 +978,7 @@ def explore(check, reqs, lines, bound, budget, monitor=True):
         yield r
         dec = r['decisions']
         chosen = [d[1] for d in dec]
-        cand = []
+        h, c = [], []
         for i in range(len(prefix), len(dec)):
             en, ch, cur, kind = dec[i]
             if len(en) < 2:
@@ -983,12 +986,16 @@ def explore(check, reqs, lines, bound, budget, monitor=True):
             cost = 1 if cur in en else 0
             if used + cost > bound:
                 continue
+            is_hot = kind != 'line' or (i > 0 and dec[i - 1][3] != 'line' and dec[i - 1][1] == cur)
             for alt in en:
                 if alt != ch:
-                    cand.append((chosen, i, alt, used + cost))
-        if len(cand) > MAX_BRANCH:          # very long runs: a seeded sample of the branch points
-            cand = check.rng.sample(cand, MAX_BRANCH)
-        frontier.extend(cand)
+                    (h if is_hot else c).append((chosen, i, alt, used + cost))
+        if len(h) > MAX_BRANCH:             # very long runs: a seeded sample of the branch points
+            h = check.rng.sample(h, MAX_BRANCH)
+        if len(c) > MAX_BRANCH:
+            c = check.rng.sample(c, MAX_BRANCH)
+        hot.extend(h)
+        cold.extend(c)
 
 MAX_BRANCH = 400
 
